@@ -127,6 +127,7 @@ Proof.
     destruct Rel as (B & <- & <- & Wref).
     cbn [andb] in Khere.
     pose proof (estimate_model_spec _ _ _ _ Wref Hobs Khere) as EQ.
+    pose proof (eval_model_spec _ _ _ _ Wref Hobs Khere) as EQ'.
     destruct (spec_estimate (recv_time_ms e) (ts_val e) now (sg_tsval s)) as [u|] eqn:SE.
     + rewrite (process_eval tr s now e ltac:(congruence) G B u EQ). cbn [fst snd].
       f_equal.
@@ -134,7 +135,8 @@ Proof.
       * eapply IH; [exact W' | | exact Ksplit' | exact Krest].
         apply (inv_update seen tr st); [exact I | reflexivity | reflexivity | | exact Hro].
         rewrite <- Hkey, G, S. cbn [entry_rel]. auto.
-    + destruct (process_failed_eval tr s now e ltac:(congruence) G B EQ) as [O C].
+    + cbn [eval_of_spec] in EQ'.
+      destruct (process_failed_eval tr s now e ltac:(congruence) G B EQ') as [O C].
       rewrite O. cbn [fst snd to_sresult]. f_equal.
       eapply IH; [exact W' | | exact Ksplit' | exact Krest].
       apply (inv_update seen tr st); [exact I | | | | exact Hro].
